@@ -33,7 +33,8 @@ directory has `root` as a prefix -/
 def StaysBelow (root : List Bytes) (comps : List Bytes) : Prop :=
   ∀ k, root <+: resolve root (comps.take k)
 
-theorem resolve_normal (stack comps : List Bytes) (h : ∀ c ∈ comps, isNormalSeg c = true) :
+/-- a walk over Normal components only descends -/
+theorem C16_resolve_normal (stack comps : List Bytes) (h : ∀ c ∈ comps, isNormalSeg c = true) :
     resolve stack comps = stack ++ comps := by
   induction comps generalizing stack with
   | nil => simp [resolve]
@@ -66,10 +67,73 @@ theorem C16_no_escape (hidden : Bool) (path : Bytes) :
   · intro buf hb
     rw [hb] at h
     simp only [PathPost] at h
-    refine ⟨h, fun root => ⟨resolve_normal root buf h, ?_⟩⟩
+    refine ⟨h, fun root => ⟨C16_resolve_normal root buf h, ?_⟩⟩
     intro k
-    rw [resolve_normal root (buf.take k) (fun c hc => h c (List.mem_of_mem_take hc))]
+    rw [C16_resolve_normal root (buf.take k) (fun c hc => h c (List.mem_of_mem_take hc))]
     exact List.prefix_append _ _
+
+/-- the segment loop computes the lexical walk from its current buffer -/
+theorem C16_segLoop_is_walk (hidden : Bool) : ∀ (segs buf : List Bytes) (cnt : Nat) (buf' : List Bytes) (cnt' : Nat),
+    segLoop hidden segs buf cnt = .ok (buf', cnt') → buf' = resolve buf segs := by
+  intro segs
+  induction segs with
+  | nil => intro buf cnt buf' cnt' h; simp only [segLoop, Outcome.ok.injEq, Prod.mk.injEq] at h; simp [resolve, h.1]
+  | cons seg rest ih =>
+    intro buf cnt buf' cnt' h
+    unfold segLoop at h
+    split at h
+    · cases h
+    · rename_i hdot
+      split at h
+      · rename_i hdd
+        cases cnt with
+        | zero => cases h
+        | succ c => simp only [resolve, hdd, if_true]; exact ih _ _ _ _ h
+      · rename_i hdd
+        split at h
+        · cases h
+        · split at h
+          · cases h
+          · split at h
+            · cases h
+            · split at h
+              · cases h
+              · split at h
+                · cases h
+                · split at h
+                  · rename_i hemp
+                    have he : seg = [] := by simpa using hemp
+                    cases cnt with
+                    | zero => cases h
+                    | succ c => simp only [resolve, hdd, he, if_false, or_true, if_true]; subst he; exact ih _ _ _ _ h
+                  · rename_i hne
+                    have he : seg ≠ [] := by simpa using hne
+                    simp only [resolve, hdd, hdot, he, if_false, or_self]
+                    exact ih _ _ _ _ h
+
+/-- **C16_parse_path_is_lexical_walk**: when `parse_path` accepts, its result is exactly the
+lexical walk (`..` pops, empty pieces skipped) over the `/`-pieces of the once-decoded string,
+started at the (empty) root — the function computes the normal form, not merely something safe. -/
+theorem C16_parse_path_is_lexical_walk (hidden : Bool) (path : Bytes) (buf : List Bytes)
+    (h : parsePath hidden path = .ok buf) :
+    buf = resolve [] (splitOn 0x2F (percentDecode path)) := by
+  unfold parsePath at h
+  simp only at h
+  split at h
+  · cases h
+  · split at h
+    · cases h
+    · split at h
+      · rename_i b c heq
+        have hw := C16_segLoop_is_walk hidden _ _ _ _ _ heq
+        unfold finalCheck at h
+        split at h
+        · cases h
+        · split at h
+          · cases h
+          · cases h; exact hw
+      · cases h
+      · cases h
 
 /-- the hypotheses of `C16_no_escape` are satisfiable with a non-trivial result:
 `/a/../b/%2e%2e/c` parses to `c` -/
@@ -277,26 +341,6 @@ example : intoResponse ⟨10, none, none⟩ {} (.str (ascii ['b', 'y', 't', 'e',
   decide
 
 /-! ### against the grammar of RFC 7233 (canonical shapes, arbitrary digit strings) -/
-
-theorem mem_dash_digits {A B : Bytes} (hA : IsDigits A) (hB : IsDigits B) {b : UInt8}
-    (hb : b ∈ A ++ 0x2D :: B) : isDigit b = true ∨ b = 0x2D := by
-  simp only [List.mem_append, List.mem_cons] at hb
-  rcases hb with h | h | h
-  · exact Or.inl (hA.2 b h)
-  · exact Or.inr h
-  · exact Or.inl (hB.2 b h)
-
-theorem dash_digits_no_comma {s : Bytes} (h : ∀ b ∈ s, isDigit b = true ∨ b = 0x2D) : (0x2C : UInt8) ∉ s := by
-  intro hm
-  rcases h _ hm with h | h
-  · exact absurd h (by decide)
-  · exact absurd h (by decide)
-
-theorem dash_digits_no_ws {s : Bytes} (h : ∀ b ∈ s, isDigit b = true ∨ b = 0x2D) : ∀ b ∈ s, isWs b = false := by
-  intro b hb
-  rcases h b hb with h | h
-  · exact digit_not_ws h
-  · rw [h]; decide
 
 /-- **C16_range_first_last_rfc**: `bytes=A-B` for *any* digit strings `A`, `B` (leading zeros
 allowed, any length) with values `a ≤ b`, `b < 2^64`: if `a < len` the answer (when no precondition
@@ -579,6 +623,17 @@ theorem witness_O2_if_match_does_not_shadow_if_unmodified_since :
         { ifMatch := some (.items [⟨false, [1]⟩]), ifUnmodifiedSince := some 50 } .absent with
      | .preconditionFailed none => true
      | _ => false) = true := by decide
+
+/-- O5 (observation): the router decodes once, `parse_path` decodes again: the request target
+`/%252e` reaches the file whose name is the three characters `%2e` … -/
+theorem witness_O5_double_decoding_reaches_literal_name :
+    parsePath false (urlPath (ascii ['/', '%', '2', '5', '2', 'e'])) = .ok [ascii ['%', '2', 'e']] := by decide
+
+/-- … and `/%%32e%%32e/x` (router: `%32` → `2`) is seen by `parse_path` as `/%2e%2e/x` = `/../x`
+and popped — safe, by `C16_no_escape`. -/
+theorem witness_O5_double_decoding_is_popped :
+    parsePath false (urlPath (ascii ['/', 'a', '/', '%', '%', '3', '2', 'e', '%', '%', '3', '2', 'e', '/', 'x'])) =
+      .ok [ascii ['x']] := by decide
 
 /-- O3 (observation): a last-byte-pos that does not fit `u64` makes the whole header invalid
 (416) although RFC 7233 would clamp it to the end of the file. -/
